@@ -162,7 +162,10 @@ impl Transformation<String> {
   pub fn used_vars(&self) -> &str {
     // NOTE: meta_var in transform always starts with `$`, for now
     let s = self.source();
-    s.strip_prefix("$$$").unwrap_or_else(|| &s[1..])
+    // a source that is not $-prefixed (empty, multi-byte first char) is reported by `parse`
+    s.strip_prefix("$$$")
+      .or_else(|| s.strip_prefix('$'))
+      .unwrap_or(s)
   }
 }
 impl Transformation<MetaVariable> {
